@@ -178,9 +178,10 @@ Proof.
   - apply eqb_refl_nonnan. exact Hn.
 Qed.
 
-Lemma float_value_ok_refl x pr : is_nan x = false -> float_value_ok x x pr = true.
+Lemma float_value_ok_refl x pr : float_value_ok x x pr = true.
 Proof.
-  intros Hn. unfold float_value_ok. destruct pr; [apply prec_equal_refl | apply isclose_refl]; exact Hn.
+  unfold float_value_ok. destruct (is_nan x) eqn:Hn; cbn; [reflexivity|].
+  destruct pr; [apply prec_equal_refl | apply isclose_refl]; exact Hn.
 Qed.
 
 Lemma date_eqb_refl' d : isinst TDate d = true -> py_eqb d d = true.
@@ -192,10 +193,10 @@ Qed.
 
 (* ---- from_native x is a fixpoint for x ---- *)
 Lemma fn_scalar_fix x sx :
-  scalar sx = true -> vwf x = true -> no_nan x = true -> from_native x = Ok sx ->
+  scalar sx = true -> vwf x = true -> from_native x = Ok sx ->
   (validate Subst sx [] x = [] -> substitute sx x = Ok sx) -> fixp sx x.
 Proof.
-  intros Hsc Hw Hn Hs Hsub. destruct (fn_accepts_lemma x sx Hw Hn Hs) as [Hwf Hc].
+  intros Hsc Hw Hs Hsub. destruct (fn_accepts_lemma x sx Hw Hs) as [Hwf Hc].
   apply scalar_fix; auto.
 Qed.
 
@@ -209,10 +210,10 @@ Proof.
 Qed.
 
 Lemma fn_fix x :
-  forall sx, plain x = true -> vwf x = true -> no_nan x = true -> from_native x = Ok sx -> fixp sx x.
+  forall sx, plain x = true -> vwf x = true -> from_native x = Ok sx -> fixp sx x.
 Proof.
   induction x as [ | b | z | f | s0 | b | n | a us | o | l IH | d IH | | | t ] using value_ind';
-    intros sx Hpl Hw Hn Hs; pose proof Hs as Hs0; cbn [from_native] in Hs; try discriminate.
+    intros sx Hpl Hw Hs; pose proof Hs as Hs0; cbn [from_native] in Hs; try discriminate.
   - inversion Hs; subst. apply (fn_scalar_fix VNone); auto; try (cbn [substitute]; intros ->; reflexivity).
   - inversion Hs; subst. apply (fn_scalar_fix (VBool b)); auto; try (cbn [substitute]; intros ->; reflexivity).
   - inversion Hs; subst. apply (fn_scalar_fix (VInt z)); auto; try (cbn [substitute]; intros ->; reflexivity).
@@ -227,18 +228,18 @@ Proof.
     destruct (rsequence (map (fun x => from_native x) l)) as [es| |] eqn:Er; simpl in Hs; try discriminate.
     inversion Hs; subst; clear Hs. apply rsequence_ok in Er.
     apply exact_list_fix; auto; [|unfold len_ok; cbn; auto].
-    cbn [vwf no_nan] in Hw, Hn. apply forallb_id_map' in Hw, Hn.
+    cbn [vwf] in Hw. apply forallb_id_map' in Hw.
     assert (HPl : Forall (fun x => plain x = true) l)
       by (apply Forall_forall; intros x Hx; eapply plain_list_In; eauto).
-    clear - IH Hw Hn HPl Er. induction Er as [|x e l es Hxe _ IHr]; constructor.
-    + inversion IH; inversion Hw; inversion Hn; inversion HPl; subst. auto.
-    + inversion IH; inversion Hw; inversion Hn; inversion HPl; subst. auto.
+    clear - IH Hw HPl Er. induction Er as [|x e l es Hxe _ IHr]; constructor.
+    + inversion IH; inversion Hw; inversion HPl; subst. auto.
+    + inversion IH; inversion Hw; inversion HPl; subst. auto.
   - (* dict *)
     destruct (existsb (fun kv : key * value => is_kell (fst kv)) d) eqn:Ek; [discriminate|].
     destruct (rsequence (map (fun kv : key * value => rmap (fun s => (fst kv, s)) (from_native (snd kv))) d))
       as [ents| |] eqn:Er; simpl in Hs; try discriminate.
     inversion Hs; subst; clear Hs. apply rsequence_ok in Er. apply dict_ents_rel in Er.
-    destruct (vwf_dict _ Hw) as [Hnd Hvm]. cbn [no_nan] in Hn. apply forallb_id_map' in Hn.
+    destruct (vwf_dict _ Hw) as [Hnd Hvm].
     pose proof (no_kell_keys _ Ek) as Hnk.
     assert (Hkeys : map fst ents = map fst d) by (eapply Forall2_fst_map; exact Er).
     unfold dict_of_natives. apply exact_dict_fix; auto.
@@ -246,10 +247,10 @@ Proof.
       unfold de_key, de_schema, de_opt. simpl.
       destruct (Forall2_In_r _ _ _ _ Er Hin) as ([k0 x] & Hind & Hk0 & Hf). simpl in *. subst k0.
       rewrite (assoc_NoDup_In _ _ _ Hnd Hind). exists s. split; [reflexivity|]. split; [|reflexivity].
-      pose proof (proj1 (Forall_forall _ _) IH) as IH'. pose proof (proj1 (Forall_forall _ _) Hn) as Hn'.
+      pose proof (proj1 (Forall_forall _ _) IH) as IH'.
       apply (IH' (k, x) Hind s); auto;
         try (eapply plain_dict_assoc; [exact Hpl | apply assoc_NoDup_In; eauto]);
-        try (eapply Hvm; eauto); try (apply (Hn' (k, x) Hind)).
+        try (eapply Hvm; eauto).
     + intros k x Hin. rewrite keys_of_natives, Hkeys. apply in_map_iff. exists (k, x). auto.
     + unfold relaxed_only. apply andb_false_iff. right. apply not_true_iff_false. intros Hd.
       apply declared_In in Hd. rewrite map_map in Hd. simpl in Hd.
@@ -305,11 +306,11 @@ Proof. intros H. rewrite <- (firstn_skipn n l). apply in_or_app. auto. Qed.
 (* ---- one window: positional fixpoints ---- *)
 Definition PFix (of : option substfn) : Prop :=
   match of with
-  | Some f => forall x s', plain x = true -> vwf x = true -> no_nan x = true -> f x = Ok s' -> fixp s' x
+  | Some f => forall x s', plain x = true -> vwf x = true -> f x = Ok s' -> fixp s' x
   | None => True end.
 
 Lemma window_fix fs xs ss :
-  Forall PFix fs -> Forall (fun x => plain x = true /\ vwf x = true /\ no_nan x = true) xs ->
+  Forall PFix fs -> Forall (fun x => plain x = true /\ vwf x = true) xs ->
   length fs <= length xs ->
   Forall2 (fun (ofx : option substfn * value) s => exists f, fst ofx = Some f /\ f (snd ofx) = Ok s)
           (combine fs xs) ss ->
@@ -319,22 +320,22 @@ Proof.
   - simpl in *. inversion Hrel; subst. constructor.
   - destruct xs as [|x xs]; [simpl in Hle; lia|]. simpl in Hrel.
     inversion Hrel as [|? s ? ss' (f & Hf & Hfx) Hrest]; subst. simpl in Hf, Hfx. subst of.
-    inversion Hxs as [|? ? (Hp & Hw & Hn) Hxs']; subst. simpl. constructor.
+    inversion Hxs as [|? ? (Hp & Hw) Hxs']; subst. simpl. constructor.
     + eapply Hof; eauto.
     + eapply IH; eauto. simpl in Hle. lia.
 Qed.
 
 Lemma natives_fix l ss :
-  Forall (fun x => plain x = true /\ vwf x = true /\ no_nan x = true) l ->
+  Forall (fun x => plain x = true /\ vwf x = true) l ->
   Forall2 (fun x s => sub_from_native x = Ok s) l ss -> Forall2 fixp ss l.
 Proof.
   intros Hl H. induction H as [|x s l ss Hxs _ IH]; constructor.
-  - inversion Hl as [|? ? (Hp & Hw & Hn) _]; subst. apply fn_fix; auto using sub_from_native_ok.
+  - inversion Hl as [|? ? (Hp & Hw) _]; subst. apply fn_fix; auto using sub_from_native_ok.
   - apply IH. inversion Hl; auto.
 Qed.
 
 Lemma subst_elements_fix fs l start els :
-  Forall PFix fs -> Forall (fun x => plain x = true /\ vwf x = true /\ no_nan x = true) l ->
+  Forall PFix fs -> Forall (fun x => plain x = true /\ vwf x = true) l ->
   start <= length l -> subst_elements fs l start = Ok els ->
   exists es, els = map Some es /\ Forall2 fixp es l.
 Proof.
@@ -351,7 +352,7 @@ Proof.
     rewrite skipn_skipn'. reflexivity. }
   rewrite El.
   assert (Hsub : forall l', (forall x, In x l' -> In x l) ->
-                            Forall (fun x => plain x = true /\ vwf x = true /\ no_nan x = true) l').
+                            Forall (fun x => plain x = true /\ vwf x = true) l').
   { intros l' Hin. apply Forall_forall. intros x Hx. rewrite Forall_forall in HPl. auto. }
   apply Forall2_app; [apply natives_fix; auto; apply Hsub; intros x Hx; eapply In_firstn; eauto|].
   apply Forall2_app.
@@ -361,7 +362,7 @@ Qed.
 
 (* ---- the theorem ---- *)
 Definition idemP (s : schema) : Prop :=
-  forall v s', plain v = true -> vwf v = true -> no_nan v = true ->
+  forall v s', plain v = true -> vwf v = true ->
                substitute s v = Ok s' -> fixp s' v.
 
 Lemma relaxed_only_keys ents0 ents :
@@ -395,7 +396,7 @@ Proof.
   induction s as [ | val | val mn mx | val mn mx pr | val len mnl mxl al sub pat
                  | es ty len mnl mxl IHes IHty | ks IHks | ts IHts
                  | val | val | val | val | nm t IHt | t IHt ] using schema_ind';
-    intros Hwf v s' Hpl Hvw Hnn Hs.
+    intros Hwf v s' Hpl Hvw Hs.
   - (* none *) scalar_start'' Hs EV. inversion Hs; subst.
     apply scalar_fix; auto. cbn [substitute]. intros ->. reflexivity.
   - (* bool *) scalar_start'' Hs EV. destruct v; try discriminate. inversion Hs; subst.
@@ -412,7 +413,7 @@ Proof.
     inversion Hs; subst. apply scalar_fix; auto.
     + destruct EV as (x1 & E1 & Hv & Hmn & Hmx). inversion E1; subst x1. exists x.
       destruct val as [e|]; cbn in *; repeat split; auto.
-      apply float_value_ok_refl. apply negb_true_iff in Hnn. exact Hnn.
+      apply float_value_ok_refl.
     + cbn [substitute]. intros ->. destruct val; reflexivity.
   - (* str *) scalar_start'' Hs EV. destruct v; try discriminate. inversion Hs; subst.
     apply scalar_fix; auto.
@@ -428,9 +429,8 @@ Proof.
     destruct (check_len_first [] (VList l) (zlen l) len mnl mxl) eqn:EL; [|discriminate].
     apply check_len_first_nil in EL.
     cbn [wf] in Hwf. apply andb_true_iff in Hwf as [Hwes Hwty].
-    assert (HPl : Forall (fun x => plain x = true /\ vwf x = true /\ no_nan x = true) l).
-    { apply Forall_forall. intros x Hx. repeat split;
-        [eapply plain_list_In | eapply vwf_list_In | eapply no_nan_list_In]; eauto. }
+    assert (HPl : Forall (fun x => plain x = true /\ vwf x = true) l).
+    { apply Forall_forall. intros x Hx. split; [eapply plain_list_In | eapply vwf_list_In]; eauto. }
     destruct ty as [t|].
     + assert (Hs2 : exists els, rsequence (map (fun x => if is_vell x then Ok None
                                                          else rmap Some (substitute t x)) l) = Ok els /\
@@ -441,7 +441,7 @@ Proof.
       assert (Hels : exists ss, els = map Some ss /\ Forall2 fixp ss l).
       { clear - Hr HPl IHty. induction Hr as [|x e l els Hxe _ IH].
         - exists []. split; auto.
-        - inversion HPl as [|? ? (H1 & H2 & H3) H4]; subst. destruct (IH H4) as (ss & -> & Hss).
+        - inversion HPl as [|? ? (H1 & H2) H4]; subst. destruct (IH H4) as (ss & -> & Hss).
           rewrite (plain_not_ell _ H1) in Hxe. apply rmap_ok in Hxe as (s & Hs & ->).
           exists (s :: ss). split; [reflexivity|]. constructor; [apply (IHty x s); auto | exact Hss]. }
       destruct Hels as (ss & -> & Hss). apply exact_list_fix; auto.
@@ -453,7 +453,7 @@ Proof.
         assert (HPF : Forall PFix fs).
         { unfold fs. clear - IHes Hwm. induction IHes as [|o r Ho _ IH]; simpl; constructor.
           - inversion Hwm; subst. destruct o as [sch|]; simpl; auto.
-            intros x s1 Hx Hw Hn Hsub. eapply (Ho sch eq_refl); eauto.
+            intros x s1 Hx Hw Hsub. eapply (Ho sch eq_refl); eauto.
           - apply IH. inversion Hwm; auto. }
         assert (HPFm : Forall PFix (middle fs)) by (apply Forall_middle; exact HPF).
         unfold subst_list_elements in Hr. destruct (existsb is_vell l); [discriminate|].
@@ -498,8 +498,7 @@ Proof.
         destruct Hin as [E|Hin]; [inversion E; subst; exact H | auto]. }
       apply fn_fix; auto using sub_from_native_ok.
       - eapply plain_dict_assoc; eauto. apply assoc_NoDup_In; eauto.
-      - eapply Hvm; eauto.
-      - eapply no_nan_dict_In; eauto. }
+      - eapply Hvm; eauto. }
     assert (Hnatkeys : forall ss, Forall2 (fun kv s => sub_from_native (snd kv) = Ok s) d ss ->
                        map de_key (map (fun p => native_entry (fst p) (snd p)) (combine d ss)) = map fst d).
     { intros ss Hss. rewrite map_map. unfold native_entry, de_key. simpl.
@@ -548,7 +547,6 @@ Proof.
               apply (IHks e0 Hin0 sch Hsch Hwsch x s1); auto.
               ** eapply plain_dict_assoc; eauto.
               ** eapply Hvm; eauto.
-              ** eapply no_nan_dict_In; eauto.
         -- intros k x Hin. rewrite Hkeys. eauto.
         -- rewrite (relaxed_only_keys ents0 ents Hkeys). exact Erel.
     + (* undeclared dict *)
@@ -593,12 +591,12 @@ Proof.
     + cbn [substitute]. intros ->. reflexivity.
   - (* alias *)
     cbn [substitute] in Hs. apply bind_ok in Hs as (t' & Ht & Hs). inversion Hs; subst.
-    destruct (IHt Hwf v t' Hpl Hvw Hnn Ht) as [Hv Hsub]. split.
+    destruct (IHt Hwf v t' Hpl Hvw Ht) as [Hv Hsub]. split.
     + intros p. cbn [validate]. apply Hv.
     + cbn [substitute]. rewrite Hsub. reflexivity.
   - (* custom *)
     cbn [substitute] in Hs. apply bind_ok in Hs as (t' & Ht & Hs). inversion Hs; subst.
-    destruct (IHt Hwf v t' Hpl Hvw Hnn Ht) as [Hv Hsub]. split.
+    destruct (IHt Hwf v t' Hpl Hvw Ht) as [Hv Hsub]. split.
     + intros p. cbn [validate]. apply Hv.
     + cbn [substitute]. rewrite Hsub. reflexivity.
 Qed.
